@@ -140,6 +140,8 @@ struct TextSearch<'a, 'l> {
     exp: Vec<[Option<Vec<(usize, usize)>>; 2]>,
     bodies: Vec<&'l str>,
     failed: HashSet<(usize, usize)>,
+    /// per paragraph: the whole paragraph as one line, where that is admissible (see `whole_line_alternative`)
+    whole: Vec<Option<&'a str>>,
 }
 
 impl<'a, 'l> TextSearch<'a, 'l> {
@@ -214,8 +216,10 @@ fn check_text_reading(case: &Case, obs: &mut Obs, universal: bool) -> Verdict {
     let splitter = o.split_build();
     let mut paras = Vec::new();
     let mut exp = Vec::new();
+    let mut whole = Vec::new();
     for (k, para) in split_paragraphs(text, o.le(), universal).into_iter().enumerate() {
         let a = para_fragments(para, o, &splitter);
+        whole.push(whole_line_alternative(&a, o, k == 0));
         if !a.lossless {
             return Verdict::Skipped("pipeline fragments are not lossless (reported under C11/C12)");
         }
@@ -251,7 +255,7 @@ fn check_text_reading(case: &Case, obs: &mut Obs, universal: bool) -> Verdict {
     // a (0,0) range (sentinel alone on the first line) renders as the empty string
     struct Fix;
     let _ = Fix;
-    let mut s = TextSearch { paras, exp, bodies, failed: HashSet::new() };
+    let mut s = TextSearch { paras, exp, bodies, failed: HashSet::new(), whole };
     // make `matches` handle empty ranges: pre-filter by replacing (a,a) ranges with a marker
     let ok = {
         // custom go that understands empty ranges
@@ -261,6 +265,11 @@ fn check_text_reading(case: &Case, obs: &mut Obs, universal: bool) -> Verdict {
             }
             if s.failed.contains(&(i, p)) {
                 return false;
+            }
+            if let Some(w) = s.whole[p] {
+                if i < s.bodies.len() && s.bodies[i].trim_end_matches(' ') == w && go2(s, i + 1, p + 1) {
+                    return true;
+                }
             }
             for v in 0..2 {
                 let n;
